@@ -82,3 +82,14 @@ Fixpoint uvarint_from (l : list Z) (i : nat) (x s : Z) : Z * Z :=
       else uvarint_from r (S i) (Z.lor x (Z.shiftl (Z.land b 127) s)) (s + 7)
   end.
 Definition go_uvarint (l : list Z) : Z * Z := uvarint_from l 0 0 0.
+
+(* encoding/binary.PutUvarint: the bytes it writes for v >= 0 *)
+Fixpoint uvarint_bytes (fuel : nat) (v : Z) : list Z :=
+  match fuel with
+  | O => []
+  | Datatypes.S f => if v <? 128 then [v] else (v mod 128 + 128) :: uvarint_bytes f (v / 128)
+  end.
+Definition go_uvarint_enc (v : Z) : list Z := uvarint_bytes 10 v.
+Definition go_uvarint_len (v : Z) : Z := go_len (go_uvarint_enc v).
+(* binary.PutUvarint(dst[lo:], v) (the translator emits the condition under which it does not panic) *)
+Definition go_put_uvarint (dst : list Z) (lo v : Z) : list Z := go_copy dst lo (go_uvarint_enc v).
